@@ -58,6 +58,22 @@ SumSeq(s) == LET RECURSIVE F(_)
 ExtAt(n, k) == IF M.ext[n] = <<>> THEN 0
                ELSE IF k + 1 <= Len(M.ext[n]) THEN M.ext[n][k + 1] ELSE M.ext[n][Len(M.ext[n])]
 
+(* adaptive stepping: the input at time t is the linear interpolation of the N samples placed uniformly on [0, T]
+   (knots j*T/(N-1)).  Half-knot lattice: position h in 0..2(N-1) is time h*T/(2(N-1)); result doubled to stay
+   integral.  Positions -1 and 2(N-1)+1 stand for "any time before 0 / after T" (clamping). *)
+Interp2(u, h) == LET nn == Len(u) IN
+                 IF h <= 0 THEN 2 * u[1]
+                 ELSE IF h >= 2 * (nn - 1) THEN 2 * u[nn]
+                 ELSE IF h % 2 = 0 THEN 2 * u[h \div 2 + 1]
+                 ELSE u[(h - 1) \div 2 + 1] + u[(h + 1) \div 2 + 1]
+InterpTable(u) == IF u = <<>> THEN <<>> ELSE [q \in 1..(2 * (Len(u) - 1) + 3) |-> Interp2(u, q - 2)]
+InterpExactAtKnots == \A n \in Nodes : M.ext[n] # <<>> =>
+                        \A j \in 0..(Len(M.ext[n]) - 1) : Interp2(M.ext[n], 2 * j) = 2 * M.ext[n][j + 1]
+InterpBetweenNeighbours == \A n \in Nodes : M.ext[n] # <<>> =>
+                        \A j \in 0..(Len(M.ext[n]) - 2) :
+                           LET a == M.ext[n][j + 1]  b == M.ext[n][j + 2]  v == Interp2(M.ext[n], 2 * j + 1) IN
+                           (a <= b => (2 * a <= v /\ v <= 2 * b)) /\ (a >= b => (2 * b <= v /\ v <= 2 * a))
+
 -----------------------------------------------------------------------------
 (* Layer M: the delayed recurrence.  ys is the sequence of iterates y_0..y_k. *)
 DelayedM(ys, k, e, shift) ==      \* value edge e delivers at step k (shift = 1: advanced second stage)
@@ -183,5 +199,6 @@ Export == Done => PrintT(<<"BEH", ToJson([m |-> M, cfg |-> C,
                                           expM |-> IF C.solver = "scipy" THEN ToRows(rec) ELSE RowsOf(ysM),
                                           expA |-> IF C.solver = "scipy" THEN ToRows(rec) ELSE RowsOf(ysA),
                                           expP |-> ToRows(rec),
+                                          interp |-> [n \in Nodes |-> InterpTable(M.ext[n])],
                                           dev |-> SetToSeq(Fired)])>>)
 =============================================================================
